@@ -189,8 +189,99 @@ package snaps
 //@   ensures [lock] held[_m] == 0
 //@   ensures [exists] fsx[snapPath] == old(fsx[snapPath])
 
-// ---- MatchSnapshot ------------------------------------------------------------------------
-// Global invariant of the package state (GInv), required and re-established by every entry point.
+// ---- JSON ---------------------------------------------------------------------------------
+// Entry-state invariant: the default pretty options are never written (no contract assigns pretty.Options fields).
+//@ axiom default_json_opts: defaultPrettyJSONOptions != nil && defaultPrettyJSONOptions.SortKeys && defaultPrettyJSONOptions.Indent == " " && defaultPrettyJSONOptions.Width == 0 && defaultPrettyJSONOptions.Prefix == ""
+//@
+//@ func (*JSONConfig).getPrettyJSONOptions(j) returns (o)
+//@   mode ctl
+//@   assigns alloc
+//@   ensures o != nil
+//@   ensures j == nil ==> o == defaultPrettyJSONOptions
+//@   ensures j != nil ==> fresh(o) && o.Width == j.Width && o.Indent == j.Indent && o.SortKeys == j.SortKeys && o.Prefix == ""
+//@
+//@ specfun isText(input Any) Bool = dyntype(input) == T.string || dyntype(input) == gotype("[]byte")
+//@ specfun vjErrOf(input Any) Err = isText(input) ? (jsonValid(unboxStr(input)) ? nil : errInvalidJSON) : jsonMarshalErr(input)
+//@ specfun vjBytesOf(input Any) Str = isText(input) ? (jsonValid(unboxStr(input)) ? unboxStr(input) : "") : jsonMarshal(input)
+//@ func validateJSON(input) returns (b, err)
+//@   mode ctl
+//@   assigns nothing
+//@   ensures [string] dyntype(input) == T.string ==> (jsonValid(unboxStr(input)) ? (err == nil && b == unboxStr(input)) : err == errInvalidJSON)
+//@   ensures [bytes] dyntype(input) == gotype("[]byte") ==> (jsonValid(unboxStr(input)) ? (err == nil && b == unboxStr(input)) : err == errInvalidJSON)
+//@   ensures [value] dyntype(input) != T.string && dyntype(input) != gotype("[]byte") ==> b == jsonMarshal(input) && err == jsonMarshalErr(input)
+//@   ensures [valid] err == nil ==> jsonValid(b)
+//@   ensures [fun] b == vjBytesOf(input) && err == vjErrOf(input)
+//@
+//@ func takeJSONSnapshot(c, b) returns (r)
+//@   mode ctl
+//@   requires c != nil
+//@   assigns alloc
+//@   ensures c.json == nil ==> r == trimNL(prettyJSON(b, 0, "", " ", true))
+//@   ensures c.json != nil ==> r == trimNL(prettyJSON(b, c.json.Width, "", c.json.Indent, c.json.SortKeys))
+//@   ensures r == jsonSnapOf(b, c.json == nil, c.json.Width, c.json.Indent, c.json.SortKeys)
+//@
+//@ func applyJSONMatchers(b, matchers) returns (out, errs)
+//@   mode ctl
+//@   assigns nothing
+//@   ensures out == applyJ(b, arr(matchers), len(matchers))
+//@   ensures len(errs) == nerrJ(b, arr(matchers), len(matchers))
+//@   loop 1 invariant 0 <= $idx && $idx <= len(matchers)
+//@   loop 1 invariant b == applyJ(old(b), arr(matchers), $idx) && len(errors) == nerrJ(old(b), arr(matchers), $idx)
+
+// ---- YAML -----------------------------------------------------------------------------------
+//@ specfun vyOK(input Any) Bool = isText(input) ? yamlValid(unboxStr(input)) : yamlMarshalErr(input) == nil
+//@ specfun vyBytesOf(input Any) Str = isText(input) ? (yamlValid(unboxStr(input)) ? unboxStr(input) : "") : (yamlMarshalErr(input) == nil ? yamlMarshal(input) : "")
+//@ func validateYAML(input) returns (b, err)
+//@   mode ctl
+//@   assigns alloc
+//@   ensures [string] dyntype(input) == T.string ==> (yamlValid(unboxStr(input)) ? (err == nil && b == unboxStr(input)) : err != nil)
+//@   ensures [bytes] dyntype(input) == gotype("[]byte") ==> (yamlValid(unboxStr(input)) ? (err == nil && b == unboxStr(input)) : err != nil)
+//@   ensures [value] dyntype(input) != T.string && dyntype(input) != gotype("[]byte") ==> (yamlMarshalErr(input) == nil ? (err == nil && b == yamlMarshal(input)) : err != nil)
+//@   ensures [fun] b == vyBytesOf(input) && (err == nil) == vyOK(input)
+//@
+//@ func takeYAMLSnapshot(b) returns (r)
+//@   mode ctl
+//@   assigns nothing
+//@   ensures r == esc(b) && noEND(r)
+//@
+//@ func applyYAMLMatchers(b, matchers) returns (out, errs)
+//@   mode ctl
+//@   assigns nothing
+//@   ensures out == applyY(b, arr(matchers), len(matchers))
+//@   ensures len(errs) == nerrY(b, arr(matchers), len(matchers))
+//@   loop 1 invariant 0 <= $idx && $idx <= len(matchers)
+//@   loop 1 invariant b == applyY(old(b), arr(matchers), $idx) && len(errors) == nerrY(old(b), arr(matchers), $idx)
+
+// ---- standalone snapshots ---------------------------------------------------------------------
+//@ func (*syncStandaloneRegistry).getTestID(s, snapPath, snapPathRel) returns (p, prel)
+//@   mode ctl
+//@   requires s != nil && s.running != nil && s.cleanup != nil && s.running != s.cleanup && held[s.Mutex] == 0
+//@   assigns s.running[snapPath], s.cleanup[snapPath]
+//@   ensures s.running[snapPath] == old(s.running[snapPath]) + 1 && s.cleanup[snapPath] == old(s.cleanup[snapPath]) + 1
+//@   ensures p == sprintf_d(snapPath, s.running[snapPath]) && prel == sprintf_d(snapPathRel, s.running[snapPath])
+//@   ensures held[s.Mutex] == 0
+//@
+//@ func (*syncStandaloneRegistry).reset(s, snapPath)
+//@   mode ctl
+//@   requires s != nil && s.running != nil && held[s.Mutex] == 0
+//@   assigns s.running[snapPath]
+//@   ensures s.running[snapPath] == 0 && held[s.Mutex] == 0
+//@
+//@ func upsertStandaloneSnapshot(snapshot, snapPath) returns (err)
+//@   mode ctl
+//@   requires quiescent || fsguard[snapPath] == nil
+//@   assigns fsx[snapPath], fsc[snapPath], fsdir, fswrites
+//@   ensures err == nil ==> fsx[snapPath] && fsc[snapPath] == snapshot
+//@   ensures err != nil ==> fsx[snapPath] == old(fsx[snapPath]) && fsc[snapPath] == old(fsc[snapPath])
+//@
+//@ func getPrevStandaloneSnapshot(snapPath) returns (snap, err)
+//@   mode ctl
+//@   requires quiescent || fsguard[snapPath] == nil
+//@   assigns nothing
+//@   ensures fsx[snapPath] ==> err == nil && snap == fsc[snapPath]
+//@   ensures !fsx[snapPath] ==> err == errSnapNotFound
+
+// BEGIN-GENERATED-MATCH (tools/gen_match_contracts.py)
 //@ func matchSnapshot$1()
 //@   mode ctl
 //@   requires testsRegistry != nil && testsRegistry.running != nil && held[testsRegistry.Mutex] == 0
@@ -203,21 +294,9 @@ package snaps
 //@   mode ctl
 //@   dead ret5
 //@   requires c != nil && t != nil
-//@   requires testsRegistry != nil && testsRegistry.running != nil && testsRegistry.cleanup != nil && testsRegistry.running != testsRegistry.cleanup
 //@   requires testEvents != nil && testEvents.items != nil
-//@   requires held[_m] == 0 && held[testsRegistry.Mutex] == 0 && held[testEvents.Mutex] == 0
-//@   requires testsRegistry.Mutex != testEvents.Mutex && testsRegistry.Mutex != _m && testEvents.Mutex != _m
-//@   let tn = tname(t)
-//@   let sp = snapPathSpec(c.snapsDir, c.filename, c.extension, tname(t), false, isTrimBathBuild, callerFile())
-//@   requires has(testsRegistry.running, sp) == has(testsRegistry.cleanup, sp)
-//@   requires has(testsRegistry.running, sp) ==> testsRegistry.running[sp] != nil && testsRegistry.cleanup[sp] != nil && testsRegistry.running[sp] != testsRegistry.cleanup[sp]
-//@   requires isLine(tname(t))
-//@   requires fsguard[sp] == _m && !quiescent
-//@   let k = old(testsRegistry.running[sp][tname(t)]) + 1
-//@   let id = fmtID(tname(t), k)
-//@   let snap = takeSnapshot(values)
-//@   let F = old(fsc[sp])
-//@   let hit = old(fsx[sp]) && found(old(fsc[sp]), id)
+//@   requires held[_m] == 0 && held[testEvents.Mutex] == 0
+//@   requires isLine(tname(t)) && !quiescent
 //@   let mayCreate = !isCI && (c.update == nil || *c.update)
 //@   let mayUpdate = !isCI && ((c.update != nil && *c.update) || (c.update == nil && updateVAR == "true"))
 //@   let dErr = nErr[t] - old(nErr[t])
@@ -226,21 +305,283 @@ package snaps
 //@   let dAdd = testEvents.items[added] - old(testEvents.items[added])
 //@   let dUpd = testEvents.items[updated] - old(testEvents.items[updated])
 //@   let dPass = testEvents.items[passed] - old(testEvents.items[passed])
+//@   let failed = dErr == 1 && dLog == 0 && dFail == 1 && dAdd == 0 && dUpd == 0 && dPass == 0
+//@   let nowrite = fswrites == old(fswrites) && fsc[sp] == old(fsc[sp]) && fsx[sp] == old(fsx[sp])
+//@   requires testsRegistry != nil && testsRegistry.running != nil && testsRegistry.cleanup != nil && testsRegistry.running != testsRegistry.cleanup
+//@   requires held[testsRegistry.Mutex] == 0
+//@   requires testsRegistry.Mutex != testEvents.Mutex && testsRegistry.Mutex != _m && testEvents.Mutex != _m
+//@   let sp = snapPathSpec(c.snapsDir, c.filename, c.extension, tname(t), false, isTrimBathBuild, callerFile())
+//@   requires has(testsRegistry.running, sp) == has(testsRegistry.cleanup, sp)
+//@   requires has(testsRegistry.running, sp) ==> testsRegistry.running[sp] != nil && testsRegistry.cleanup[sp] != nil && testsRegistry.running[sp] != testsRegistry.cleanup[sp]
+//@   requires fsguard[sp] == _m
+//@   let k = old(testsRegistry.running[sp][tname(t)]) + 1
+//@   let id = fmtID(tname(t), k)
+//@   let F = old(fsc[sp])
+//@   let hit = old(fsx[sp]) && found(old(fsc[sp]), id)
+//@   let stored = body(F, id)
+//@   let ordinalTaken = testsRegistry.running[sp][tname(t)] == k && testsRegistry.cleanup[sp][tname(t)] == old(testsRegistry.cleanup[sp][tname(t)]) + 1
+//@   let snap = takeSnapshot(values)
 //@   assigns nErr[t], lastErr[t], nLog[t], lastLog[t], nCleanup[t], lastCleanup[t]
 //@   assigns testEvents.items[erred], testEvents.items[added], testEvents.items[updated], testEvents.items[passed]
 //@   assigns testsRegistry.running[sp], testsRegistry.cleanup[sp], testsRegistry.running[sp][tname(t)], testsRegistry.cleanup[sp][tname(t)]
 //@   assigns fsx[sp], fsc[sp], fsdir, fswrites, alloc
-//@   ensures [nocall] len(values) == 0 ==> dErr == 0 && dLog == 1 && fswrites == old(fswrites) && dFail == 0 && dAdd == 0 && dUpd == 0 && dPass == 0
-//@   ensures [ordinal] len(values) > 0 ==> testsRegistry.running[sp][tname(t)] == k && testsRegistry.cleanup[sp][tname(t)] == old(testsRegistry.cleanup[sp][tname(t)]) + 1
+//@   ensures [nocall] len(values) == 0 ==> dErr == 0 && dLog == 1 && nowrite && dFail == 0 && dAdd == 0 && dUpd == 0 && dPass == 0
+//@   ensures [ordinal] len(values) > 0 ==> ordinalTaken
 //@   ensures [one_outcome] len(values) > 0 ==>
-//@        (dErr == 1 && dLog == 0 && dFail == 1 && dAdd == 0 && dUpd == 0 && dPass == 0)
+//@        failed
 //@     || (dErr == 0 && dLog == 1 && lastLog[t] == box(addedMsg) && dFail == 0 && dAdd == 1 && dUpd == 0 && dPass == 0)
 //@     || (dErr == 0 && dLog == 1 && lastLog[t] == box(updatedMsg) && dFail == 0 && dAdd == 0 && dUpd == 1 && dPass == 0)
 //@     || (dErr == 0 && dLog == 0 && dFail == 0 && dAdd == 0 && dUpd == 0 && dPass == 1)
-//@   ensures [replay] len(values) > 0 && hit && body(F, id) == snap ==> dPass == 1 && dErr == 0 && dLog == 0 && fswrites == old(fswrites) && fsc[sp] == F && fsx[sp]
-//@   ensures [mismatch] len(values) > 0 && hit && body(F, id) != snap && noEND(body(F, id)) && !mayUpdate ==> dFail == 1 && dErr == 1 && dLog == 0 && fswrites == old(fswrites) && fsc[sp] == F
-//@   ensures [missing_ro] len(values) > 0 && !hit && !mayCreate ==> dFail == 1 && dErr == 1 && dLog == 0 && fswrites == old(fswrites) && fsc[sp] == F && fsx[sp] == old(fsx[sp])
-//@   ensures [ci] isCI ==> fswrites == old(fswrites) && fsc[sp] == F && fsx[sp] == old(fsx[sp]) && dAdd == 0 && dUpd == 0
-//@   ensures [created] len(values) > 0 && dAdd == 1 ==> !hit && mayCreate && fsx[sp] && fsc[sp] == (old(fsx[sp]) ? F : "") + "\n" + id + "\n" + snap + "\n---\n"
-//@   ensures [updated] len(values) > 0 && dUpd == 1 ==> hit && mayUpdate && body(F, id) != snap
+//@   ensures [replay] len(values) > 0 && true && hit && stored == snap ==> dPass == 1 && dErr == 0 && dLog == 0 && nowrite && fsx[sp]
+//@   ensures [mismatch] len(values) > 0 && true && hit && stored != snap && noEND(stored) && !mayUpdate ==> failed && nowrite
+//@   ensures [missing_ro] len(values) > 0 && true && !hit && !mayCreate ==> failed && nowrite
+//@   ensures [ci] isCI ==> nowrite && dAdd == 0 && dUpd == 0
+//@   ensures [created] len(values) > 0 && dAdd == 1 ==> true && !hit && mayCreate && fsx[sp] && fsc[sp] == (old(fsx[sp]) ? F : "") + "\n" + id + "\n" + snap + "\n---\n"
+//@   ensures [updated] len(values) > 0 && dUpd == 1 ==> true && hit && mayUpdate && stored != snap
+//@   ensures [equal_nowrite] len(values) > 0 && true && hit && stored == snap ==> nowrite
 //@   ensures [locks] held[_m] == 0 && held[testsRegistry.Mutex] == 0 && held[testEvents.Mutex] == 0
+//@
+//@ func matchJSON$1()
+//@   mode ctl
+//@   requires testsRegistry != nil && testsRegistry.running != nil && held[testsRegistry.Mutex] == 0
+//@   requires has(testsRegistry.running, snapPath) && testsRegistry.running[snapPath] != nil
+//@   assigns testsRegistry.running[snapPath][tname(t)]
+//@   ensures testsRegistry.running[snapPath][tname(t)] == 0
+//@   ensures held[testsRegistry.Mutex] == 0
+//@
+//@ func matchJSON(c, t, input, matchers)
+//@   mode ctl
+//@   dead ret6
+//@   loop 1 invariant forall r Ref: old(alloc)[r] ==> wbuf[r] == old(wbuf)[r]
+//@   requires c != nil && t != nil
+//@   requires testEvents != nil && testEvents.items != nil
+//@   requires held[_m] == 0 && held[testEvents.Mutex] == 0
+//@   requires isLine(tname(t)) && !quiescent
+//@   let mayCreate = !isCI && (c.update == nil || *c.update)
+//@   let mayUpdate = !isCI && ((c.update != nil && *c.update) || (c.update == nil && updateVAR == "true"))
+//@   let dErr = nErr[t] - old(nErr[t])
+//@   let dLog = nLog[t] - old(nLog[t])
+//@   let dFail = testEvents.items[erred] - old(testEvents.items[erred])
+//@   let dAdd = testEvents.items[added] - old(testEvents.items[added])
+//@   let dUpd = testEvents.items[updated] - old(testEvents.items[updated])
+//@   let dPass = testEvents.items[passed] - old(testEvents.items[passed])
+//@   let failed = dErr == 1 && dLog == 0 && dFail == 1 && dAdd == 0 && dUpd == 0 && dPass == 0
+//@   let nowrite = fswrites == old(fswrites) && fsc[sp] == old(fsc[sp]) && fsx[sp] == old(fsx[sp])
+//@   requires testsRegistry != nil && testsRegistry.running != nil && testsRegistry.cleanup != nil && testsRegistry.running != testsRegistry.cleanup
+//@   requires held[testsRegistry.Mutex] == 0
+//@   requires testsRegistry.Mutex != testEvents.Mutex && testsRegistry.Mutex != _m && testEvents.Mutex != _m
+//@   let sp = snapPathSpec(c.snapsDir, c.filename, c.extension, tname(t), false, isTrimBathBuild, callerFile())
+//@   requires has(testsRegistry.running, sp) == has(testsRegistry.cleanup, sp)
+//@   requires has(testsRegistry.running, sp) ==> testsRegistry.running[sp] != nil && testsRegistry.cleanup[sp] != nil && testsRegistry.running[sp] != testsRegistry.cleanup[sp]
+//@   requires fsguard[sp] == _m
+//@   let k = old(testsRegistry.running[sp][tname(t)]) + 1
+//@   let id = fmtID(tname(t), k)
+//@   let F = old(fsc[sp])
+//@   let hit = old(fsx[sp]) && found(old(fsc[sp]), id)
+//@   let stored = body(F, id)
+//@   let ordinalTaken = testsRegistry.running[sp][tname(t)] == k && testsRegistry.cleanup[sp][tname(t)] == old(testsRegistry.cleanup[sp][tname(t)]) + 1
+//@   let valid = vjErrOf(input) == nil
+//@   let doc = applyJ(vjBytesOf(input), arr(matchers), len(matchers))
+//@   let nme = nerrJ(vjBytesOf(input), arr(matchers), len(matchers))
+//@   let okIn = valid && nme == 0
+//@   let snap = jsonSnapOf(doc, c.json == nil, c.json.Width, c.json.Indent, c.json.SortKeys)
+//@   assigns nErr[t], lastErr[t], nLog[t], lastLog[t], nCleanup[t], lastCleanup[t]
+//@   assigns testEvents.items[erred], testEvents.items[added], testEvents.items[updated], testEvents.items[passed]
+//@   assigns testsRegistry.running[sp], testsRegistry.cleanup[sp], testsRegistry.running[sp][tname(t)], testsRegistry.cleanup[sp][tname(t)]
+//@   assigns fsx[sp], fsc[sp], fsdir, fswrites, alloc
+//@   ensures [invalid] !valid ==> failed && nowrite && ordinalTaken
+//@   ensures [matcher_errors] valid && nme > 0 ==> failed && nowrite && ordinalTaken
+//@   ensures [ordinal] true ==> ordinalTaken
+//@   ensures [one_outcome] true ==>
+//@        failed
+//@     || (dErr == 0 && dLog == 1 && lastLog[t] == box(addedMsg) && dFail == 0 && dAdd == 1 && dUpd == 0 && dPass == 0)
+//@     || (dErr == 0 && dLog == 1 && lastLog[t] == box(updatedMsg) && dFail == 0 && dAdd == 0 && dUpd == 1 && dPass == 0)
+//@     || (dErr == 0 && dLog == 0 && dFail == 0 && dAdd == 0 && dUpd == 0 && dPass == 1)
+//@   ensures [replay] true && okIn && hit && stored == snap ==> dPass == 1 && dErr == 0 && dLog == 0 && nowrite && fsx[sp]
+//@   ensures [mismatch] true && okIn && hit && stored != snap &&  !mayUpdate ==> failed && nowrite
+//@   ensures [missing_ro] true && okIn && !hit && !mayCreate ==> failed && nowrite
+//@   ensures [ci] isCI ==> nowrite && dAdd == 0 && dUpd == 0
+//@   ensures [created] true && dAdd == 1 ==> okIn && !hit && mayCreate && fsx[sp] && fsc[sp] == (old(fsx[sp]) ? F : "") + "\n" + id + "\n" + snap + "\n---\n"
+//@   ensures [updated] true && dUpd == 1 ==> okIn && hit && mayUpdate && stored != snap
+//@   ensures [equal_nowrite] true && okIn && hit && stored == snap ==> nowrite
+//@   ensures [locks] held[_m] == 0 && held[testsRegistry.Mutex] == 0 && held[testEvents.Mutex] == 0
+//@
+//@ func matchYAML$1()
+//@   mode ctl
+//@   requires testsRegistry != nil && testsRegistry.running != nil && held[testsRegistry.Mutex] == 0
+//@   requires has(testsRegistry.running, snapPath) && testsRegistry.running[snapPath] != nil
+//@   assigns testsRegistry.running[snapPath][tname(t)]
+//@   ensures testsRegistry.running[snapPath][tname(t)] == 0
+//@   ensures held[testsRegistry.Mutex] == 0
+//@
+//@ func matchYAML(c, t, input, matchers)
+//@   mode ctl
+//@   dead ret6
+//@   loop 1 invariant forall r Ref: old(alloc)[r] ==> wbuf[r] == old(wbuf)[r]
+//@   requires c != nil && t != nil
+//@   requires testEvents != nil && testEvents.items != nil
+//@   requires held[_m] == 0 && held[testEvents.Mutex] == 0
+//@   requires isLine(tname(t)) && !quiescent
+//@   let mayCreate = !isCI && (c.update == nil || *c.update)
+//@   let mayUpdate = !isCI && ((c.update != nil && *c.update) || (c.update == nil && updateVAR == "true"))
+//@   let dErr = nErr[t] - old(nErr[t])
+//@   let dLog = nLog[t] - old(nLog[t])
+//@   let dFail = testEvents.items[erred] - old(testEvents.items[erred])
+//@   let dAdd = testEvents.items[added] - old(testEvents.items[added])
+//@   let dUpd = testEvents.items[updated] - old(testEvents.items[updated])
+//@   let dPass = testEvents.items[passed] - old(testEvents.items[passed])
+//@   let failed = dErr == 1 && dLog == 0 && dFail == 1 && dAdd == 0 && dUpd == 0 && dPass == 0
+//@   let nowrite = fswrites == old(fswrites) && fsc[sp] == old(fsc[sp]) && fsx[sp] == old(fsx[sp])
+//@   requires testsRegistry != nil && testsRegistry.running != nil && testsRegistry.cleanup != nil && testsRegistry.running != testsRegistry.cleanup
+//@   requires held[testsRegistry.Mutex] == 0
+//@   requires testsRegistry.Mutex != testEvents.Mutex && testsRegistry.Mutex != _m && testEvents.Mutex != _m
+//@   let sp = snapPathSpec(c.snapsDir, c.filename, c.extension, tname(t), false, isTrimBathBuild, callerFile())
+//@   requires has(testsRegistry.running, sp) == has(testsRegistry.cleanup, sp)
+//@   requires has(testsRegistry.running, sp) ==> testsRegistry.running[sp] != nil && testsRegistry.cleanup[sp] != nil && testsRegistry.running[sp] != testsRegistry.cleanup[sp]
+//@   requires fsguard[sp] == _m
+//@   let k = old(testsRegistry.running[sp][tname(t)]) + 1
+//@   let id = fmtID(tname(t), k)
+//@   let F = old(fsc[sp])
+//@   let hit = old(fsx[sp]) && found(old(fsc[sp]), id)
+//@   let stored = body(F, id)
+//@   let ordinalTaken = testsRegistry.running[sp][tname(t)] == k && testsRegistry.cleanup[sp][tname(t)] == old(testsRegistry.cleanup[sp][tname(t)]) + 1
+//@   let valid = vyOK(input)
+//@   let doc = applyY(vyBytesOf(input), arr(matchers), len(matchers))
+//@   let nme = nerrY(vyBytesOf(input), arr(matchers), len(matchers))
+//@   let okIn = valid && nme == 0
+//@   let snap = esc(doc)
+//@   assigns nErr[t], lastErr[t], nLog[t], lastLog[t], nCleanup[t], lastCleanup[t]
+//@   assigns testEvents.items[erred], testEvents.items[added], testEvents.items[updated], testEvents.items[passed]
+//@   assigns testsRegistry.running[sp], testsRegistry.cleanup[sp], testsRegistry.running[sp][tname(t)], testsRegistry.cleanup[sp][tname(t)]
+//@   assigns fsx[sp], fsc[sp], fsdir, fswrites, alloc
+//@   ensures [invalid] !valid ==> failed && nowrite && ordinalTaken
+//@   ensures [matcher_errors] valid && nme > 0 ==> failed && nowrite && ordinalTaken
+//@   ensures [ordinal] true ==> ordinalTaken
+//@   ensures [one_outcome] true ==>
+//@        failed
+//@     || (dErr == 0 && dLog == 1 && lastLog[t] == box(addedMsg) && dFail == 0 && dAdd == 1 && dUpd == 0 && dPass == 0)
+//@     || (dErr == 0 && dLog == 1 && lastLog[t] == box(updatedMsg) && dFail == 0 && dAdd == 0 && dUpd == 1 && dPass == 0)
+//@     || (dErr == 0 && dLog == 0 && dFail == 0 && dAdd == 0 && dUpd == 0 && dPass == 1)
+//@   ensures [replay] true && okIn && hit && stored == snap ==> dPass == 1 && dErr == 0 && dLog == 0 && nowrite && fsx[sp]
+//@   ensures [mismatch] true && okIn && hit && stored != snap && noEND(stored) && !mayUpdate ==> failed && nowrite
+//@   ensures [missing_ro] true && okIn && !hit && !mayCreate ==> failed && nowrite
+//@   ensures [ci] isCI ==> nowrite && dAdd == 0 && dUpd == 0
+//@   ensures [created] true && dAdd == 1 ==> okIn && !hit && mayCreate && fsx[sp] && fsc[sp] == (old(fsx[sp]) ? F : "") + "\n" + id + "\n" + snap + "\n---\n"
+//@   ensures [updated] true && dUpd == 1 ==> okIn && hit && mayUpdate && stored != snap
+//@   ensures [equal_nowrite] true && okIn && hit && stored == snap ==> nowrite
+//@   ensures [locks] held[_m] == 0 && held[testsRegistry.Mutex] == 0 && held[testEvents.Mutex] == 0
+//@
+//@ func matchStandaloneSnapshot$1()
+//@   mode ctl
+//@   requires standaloneTestsRegistry != nil && standaloneTestsRegistry.running != nil && held[standaloneTestsRegistry.Mutex] == 0
+//@   assigns standaloneTestsRegistry.running[genericPathSnap]
+//@   ensures standaloneTestsRegistry.running[genericPathSnap] == 0
+//@   ensures held[standaloneTestsRegistry.Mutex] == 0
+//@
+//@ func matchStandaloneSnapshot(c, t, input)
+//@   mode ctl
+//@   dead ret4
+//@   requires c != nil && t != nil
+//@   requires testEvents != nil && testEvents.items != nil
+//@   requires held[_m] == 0 && held[testEvents.Mutex] == 0
+//@   requires isLine(tname(t)) && !quiescent
+//@   let mayCreate = !isCI && (c.update == nil || *c.update)
+//@   let mayUpdate = !isCI && ((c.update != nil && *c.update) || (c.update == nil && updateVAR == "true"))
+//@   let dErr = nErr[t] - old(nErr[t])
+//@   let dLog = nLog[t] - old(nLog[t])
+//@   let dFail = testEvents.items[erred] - old(testEvents.items[erred])
+//@   let dAdd = testEvents.items[added] - old(testEvents.items[added])
+//@   let dUpd = testEvents.items[updated] - old(testEvents.items[updated])
+//@   let dPass = testEvents.items[passed] - old(testEvents.items[passed])
+//@   let failed = dErr == 1 && dLog == 0 && dFail == 1 && dAdd == 0 && dUpd == 0 && dPass == 0
+//@   let nowrite = fswrites == old(fswrites) && fsc[sp] == old(fsc[sp]) && fsx[sp] == old(fsx[sp])
+//@   requires standaloneTestsRegistry != nil && standaloneTestsRegistry.running != nil && standaloneTestsRegistry.cleanup != nil && standaloneTestsRegistry.running != standaloneTestsRegistry.cleanup
+//@   requires held[standaloneTestsRegistry.Mutex] == 0
+//@   requires standaloneTestsRegistry.Mutex != testEvents.Mutex
+//@   let gp = snapPathSpec(c.snapsDir, c.filename, c.extension, tname(t), true, isTrimBathBuild, callerFile())
+//@   let k = old(standaloneTestsRegistry.running[gp]) + 1
+//@   let sp = sprintf_d(gp, k)
+//@   requires fsguard[sp] == nil
+//@   let hit = old(fsx[sp])
+//@   let stored = old(fsc[sp])
+//@   let ordinalTaken = standaloneTestsRegistry.running[gp] == k && standaloneTestsRegistry.cleanup[gp] == old(standaloneTestsRegistry.cleanup[gp]) + 1
+//@   let snap = krSprint(input)
+//@   assigns nErr[t], lastErr[t], nLog[t], lastLog[t], nCleanup[t], lastCleanup[t]
+//@   assigns testEvents.items[erred], testEvents.items[added], testEvents.items[updated], testEvents.items[passed]
+//@   assigns standaloneTestsRegistry.running[gp], standaloneTestsRegistry.cleanup[gp]
+//@   assigns fsx[sp], fsc[sp], fsdir, fswrites, alloc
+//@   ensures [ordinal] ordinalTaken
+//@   ensures [one_outcome] true ==>
+//@        failed
+//@     || (dErr == 0 && dLog == 1 && lastLog[t] == box(addedMsg) && dFail == 0 && dAdd == 1 && dUpd == 0 && dPass == 0)
+//@     || (dErr == 0 && dLog == 1 && lastLog[t] == box(updatedMsg) && dFail == 0 && dAdd == 0 && dUpd == 1 && dPass == 0)
+//@     || (dErr == 0 && dLog == 0 && dFail == 0 && dAdd == 0 && dUpd == 0 && dPass == 1)
+//@   ensures [replay] true && hit && stored == snap ==> dPass == 1 && dErr == 0 && dLog == 0 && nowrite
+//@   ensures [mismatch] true && hit && stored != snap && !mayUpdate ==> failed && nowrite
+//@   ensures [missing_ro] true && !hit && !mayCreate ==> failed && nowrite
+//@   ensures [ci] isCI ==> nowrite && dAdd == 0 && dUpd == 0
+//@   ensures [created] dAdd == 1 ==> true && !hit && mayCreate && fsx[sp] && fsc[sp] == snap
+//@   ensures [updated] dUpd == 1 ==> true && hit && mayUpdate && stored != snap && fsx[sp] && fsc[sp] == snap
+//@   ensures [locks] held[standaloneTestsRegistry.Mutex] == 0 && held[testEvents.Mutex] == 0
+//@
+//@ func matchStandaloneJSON$1()
+//@   mode ctl
+//@   requires standaloneTestsRegistry != nil && standaloneTestsRegistry.running != nil && held[standaloneTestsRegistry.Mutex] == 0
+//@   assigns standaloneTestsRegistry.running[genericPathSnap]
+//@   ensures standaloneTestsRegistry.running[genericPathSnap] == 0
+//@   ensures held[standaloneTestsRegistry.Mutex] == 0
+//@
+//@ func matchStandaloneJSON(c, t, input, matchers)
+//@   mode ctl
+//@   dead ret6
+//@   loop 1 invariant forall r Ref: old(alloc)[r] ==> wbuf[r] == old(wbuf)[r]
+//@   requires c != nil && t != nil
+//@   requires testEvents != nil && testEvents.items != nil
+//@   requires held[_m] == 0 && held[testEvents.Mutex] == 0
+//@   requires isLine(tname(t)) && !quiescent
+//@   let mayCreate = !isCI && (c.update == nil || *c.update)
+//@   let mayUpdate = !isCI && ((c.update != nil && *c.update) || (c.update == nil && updateVAR == "true"))
+//@   let dErr = nErr[t] - old(nErr[t])
+//@   let dLog = nLog[t] - old(nLog[t])
+//@   let dFail = testEvents.items[erred] - old(testEvents.items[erred])
+//@   let dAdd = testEvents.items[added] - old(testEvents.items[added])
+//@   let dUpd = testEvents.items[updated] - old(testEvents.items[updated])
+//@   let dPass = testEvents.items[passed] - old(testEvents.items[passed])
+//@   let failed = dErr == 1 && dLog == 0 && dFail == 1 && dAdd == 0 && dUpd == 0 && dPass == 0
+//@   let nowrite = fswrites == old(fswrites) && fsc[sp] == old(fsc[sp]) && fsx[sp] == old(fsx[sp])
+//@   requires standaloneTestsRegistry != nil && standaloneTestsRegistry.running != nil && standaloneTestsRegistry.cleanup != nil && standaloneTestsRegistry.running != standaloneTestsRegistry.cleanup
+//@   requires held[standaloneTestsRegistry.Mutex] == 0
+//@   requires standaloneTestsRegistry.Mutex != testEvents.Mutex
+//@   let gp = snapPathSpec(c.snapsDir, c.filename, c.extension, tname(t), true, isTrimBathBuild, callerFile())
+//@   let k = old(standaloneTestsRegistry.running[gp]) + 1
+//@   let sp = sprintf_d(gp, k)
+//@   requires fsguard[sp] == nil
+//@   let hit = old(fsx[sp])
+//@   let stored = old(fsc[sp])
+//@   let ordinalTaken = standaloneTestsRegistry.running[gp] == k && standaloneTestsRegistry.cleanup[gp] == old(standaloneTestsRegistry.cleanup[gp]) + 1
+//@   let valid = vjErrOf(input) == nil
+//@   let doc = applyJ(vjBytesOf(input), arr(matchers), len(matchers))
+//@   let nme = nerrJ(vjBytesOf(input), arr(matchers), len(matchers))
+//@   let okIn = valid && nme == 0
+//@   let snap = jsonSnapOf(doc, c.json == nil, c.json.Width, c.json.Indent, c.json.SortKeys)
+//@   assigns nErr[t], lastErr[t], nLog[t], lastLog[t], nCleanup[t], lastCleanup[t]
+//@   assigns testEvents.items[erred], testEvents.items[added], testEvents.items[updated], testEvents.items[passed]
+//@   assigns standaloneTestsRegistry.running[gp], standaloneTestsRegistry.cleanup[gp]
+//@   assigns fsx[sp], fsc[sp], fsdir, fswrites, alloc
+//@   ensures [invalid] !valid ==> failed && nowrite && ordinalTaken
+//@   ensures [matcher_errors] valid && nme > 0 ==> failed && nowrite && ordinalTaken
+//@   ensures [ordinal] ordinalTaken
+//@   ensures [one_outcome] true ==>
+//@        failed
+//@     || (dErr == 0 && dLog == 1 && lastLog[t] == box(addedMsg) && dFail == 0 && dAdd == 1 && dUpd == 0 && dPass == 0)
+//@     || (dErr == 0 && dLog == 1 && lastLog[t] == box(updatedMsg) && dFail == 0 && dAdd == 0 && dUpd == 1 && dPass == 0)
+//@     || (dErr == 0 && dLog == 0 && dFail == 0 && dAdd == 0 && dUpd == 0 && dPass == 1)
+//@   ensures [replay] okIn && hit && stored == snap ==> dPass == 1 && dErr == 0 && dLog == 0 && nowrite
+//@   ensures [mismatch] okIn && hit && stored != snap && !mayUpdate ==> failed && nowrite
+//@   ensures [missing_ro] okIn && !hit && !mayCreate ==> failed && nowrite
+//@   ensures [ci] isCI ==> nowrite && dAdd == 0 && dUpd == 0
+//@   ensures [created] dAdd == 1 ==> okIn && !hit && mayCreate && fsx[sp] && fsc[sp] == snap
+//@   ensures [updated] dUpd == 1 ==> okIn && hit && mayUpdate && stored != snap && fsx[sp] && fsc[sp] == snap
+//@   ensures [locks] held[standaloneTestsRegistry.Mutex] == 0 && held[testEvents.Mutex] == 0
+//@
+// END-GENERATED-MATCH
